@@ -1,6 +1,7 @@
 """C06 — every source definition is either consumed or reported as unused."""
 from common import freephil, enc, line_of
 from props import _fetch
+import mgen
 
 LEVEL = "proof"
 MODULE = "Phil.Props.C06"
@@ -8,7 +9,8 @@ LEVEL_TEXT = 'Lean theorems about the merge model with the .tmp marks modelled a
 LEVEL_NOTE = 'Variable-free sources in the exactness theorems (a definition used only as a $variable is marked consumed by the code; the suite pins that). D46 (master passed as its own source reported its own definitions) fixed in /repo.'
 TECHNIQUE = 'Lean 4 exact characterisation of the unused list on the fetch model + differential correspondence + set-comparison oracle'
 RULE = ("masters x source lists containing known, misspelt, wrongly nested, repeated and disabled definitions; non-trivial = "
-        "at least one source definition is unused; distinct = (master, sources)")
+        "at least one source definition is unused; distinct = (master, sources); plus an impl-only stream of source OBJECTS built "
+        "through the API (fetch / format results with template entries) against the same or a later master")
 ASSUMPTIONS = ["variable-free, alias-free sources"]
 
 
@@ -27,6 +29,134 @@ def source_defs(ss):
     for s in ss:
         walk(s, "")
     return out
+
+
+def object_defs(ss):
+    """(path, where_str) of every active definition of source OBJECTS, read off the objects themselves (the statement's
+    "active definitions in the sources ... with the source line it came from"); is_template plays no part in "active":
+    a template entry of a fetch()/format() result is an enabled definition like any other"""
+    out = []
+
+    def walk(o, prefix):
+        for c in o.objects:
+            if c.is_disabled:
+                continue
+            if c.is_definition:
+                if c.name != "include":
+                    out.append((prefix + c.name, c.where_str))
+            else:
+                walk(c, prefix + c.name + ".")
+    for s in ss:
+        walk(s, "")
+    return out
+
+
+def later_master(rng, tree, p=0.25):
+    """a later edition of a master tree: parameters / scopes renamed (a corrected spelling) or dropped, anywhere,
+    also inside .multiple scopes and .multiple parameters themselves; everything else unchanged"""
+    import copy
+    t2 = copy.deepcopy(tree)
+    tags = set()
+
+    def walk(ns):
+        out = []
+        for n in ns:
+            k = rng.random()
+            if k < p / 2 and len(ns) > 1:
+                tags.add("dropped")
+                continue
+            if k < p:
+                n["name"] = n["name"] + "_v2"
+                tags.add("renamed")
+            if n["k"] == "s":
+                n.pop("reopen", None)
+                n["kids"] = walk(n["kids"]) or n["kids"]
+            out.append(n)
+        return out
+    return walk(t2), tags
+
+
+def has_template(o):
+    return any(c.is_template != 0 or (c.is_scope and has_template(c)) for c in o.objects)
+
+
+ROUTES = ("fetch", "format", "fetch_of_fetch", "fetch+text", "text+format")
+
+
+def api_sources(rng, m1, ss, srcs, route):
+    """source OBJECTS built through the API from an earlier merge against master m1 (the working parameters a program
+    keeps): the fetch result, the format() of its extraction, a fetch of the fetch result; alone or next to parsed text"""
+    w = m1.fetch(sources=ss)
+    if route == "fetch":
+        return [w]
+    if route == "format":
+        return [m1.format(python_object=w.extract())]
+    if route == "fetch_of_fetch":
+        return [m1.fetch(source=w)]
+    extra = freephil.parse(input_string=srcs[-1]) if srcs else freephil.parse(input_string="zz = 1\n")
+    if route == "fetch+text":
+        return [w, extra]
+    return [extra, m1.format(python_object=w.extract())]
+
+
+def api_object_stream(ctx):
+    """impl-only stream (the Lean model takes source TEXTS): sources that are API-built objects -- results of an earlier
+    fetch / format against master M1, carrying is_template != 0 entries -- fetched with tracking against M1 itself or a
+    later edition of it (renamed / dropped parameters).  Clauses, as stated: reported == active definitions of the source
+    objects whose path names no active master parameter (path and where_str, as a multiset); merged result identical
+    with tracking off; and the report's paths equal those for the re-parsed complete print of the same objects."""
+    from collections import Counter
+    rng = ctx.rng
+    for i in range(ctx.scale(500, 12000, 2500)):
+        if ctx.time_left() < 30:
+            ctx.notes.append("api-object stream stopped early on time budget")
+            break
+        tree, mt, srcs = _fetch.gen(rng, nested=(i % 4 == 3), n_sources=rng.choice([0, 1, 1, 2]), deprecated=True)
+        route = ROUTES[i % len(ROUTES)]
+        same = i % 5 == 4
+        tree2, tags = (tree, set()) if same else later_master(rng, tree)
+        mt2 = mgen.render_master(tree2)
+        case = {"stream": "api_object_sources", "master_of_sources": mt, "texts": srcs, "route": route, "master": mt2}
+        try:
+            m1 = freephil.parse(input_string=mt)
+            objs = api_sources(rng, m1, [freephil.parse(input_string=s) for s in srcs], srcs, route)
+            m2 = freephil.parse(input_string=mt2)
+            plain = m2.fetch(sources=objs)
+        except (Exception, freephil.Sorry):
+            ctx.case((mt, tuple(srcs), route, mt2), nontrivial=False)
+            ctx.count("impl_only_api_refused")
+            continue
+        params = set(_fetch.active_params(m2))
+        want = [(p, l) for p, l in object_defs(objs) if p not in params]
+        templ = any(has_template(o) for o in objs)
+        ctx.case((mt, tuple(srcs), route, mt2), nontrivial=len(want) > 0)
+        ctx.count("impl_only_api_object_sources")
+        ctx.count("api_route_" + route)
+        ctx.count("api_templates_%s_unused_%d" % ("yes" if templ else "no", min(len(want), 3)))
+        for t in tags:
+            ctx.count("api_master_" + t)
+        try:
+            tracked, unused = m2.fetch(sources=objs, track_unused_definitions=True)
+        except (Exception, freephil.Sorry) as e:
+            ctx.fail(case, "fetch succeeds without tracking, raises with tracking: %r" % (e,))
+            continue
+        got = [(u.path, u.object.where_str) for u in unused]
+        if Counter(got) != Counter(want):
+            ctx.fail(case, "source objects (%s): reported %r, unused definitions are %r" % (route, sorted(got), sorted(want)))
+            continue
+        if tracked.as_str(attributes_level=3) != plain.as_str(attributes_level=3):
+            ctx.fail(case, "source objects (%s): result differs with tracking on" % route)
+            continue
+        # the same content through text: the complete print (attributes_level=3 shows hidden template entries and deprecated parameters too)
+        try:
+            re_ss = [freephil.parse(input_string=o.as_str(attributes_level=3)) for o in objs]
+            _, u3 = m2.fetch(sources=re_ss, track_unused_definitions=True)
+        except (Exception, freephil.Sorry):
+            ctx.count("api_reparse_refused")
+            continue
+        if sorted(u.path for u in u3) != sorted(p for p, _ in got):
+            ctx.fail(case, "source objects (%s): reported paths %r, for their re-parsed print %r"
+                     % (route, sorted(p for p, _ in got), sorted(u.path for u in u3)))
 
 
 def run(ctx):
@@ -100,6 +230,7 @@ def run(ctx):
     except freephil.Sorry as e:
         if "b (input line 2)" not in str(e):
             ctx.fail({"consumer": "change_default_phil_values"}, "Sorry does not cite b and its line: %s" % e)
+    api_object_stream(ctx)
     answers = [None] * len(reqs)
     if reqs and ctx.mode != "impl-only":
         # C06 is about the unused list: compare that (and success/refusal), not the merged values
